@@ -170,10 +170,12 @@ def run(ctx):
         ("GenXzStreamDec", dict(module="MCXzStreamDec", cfg="GenXzStreamDec.cfg" if quick else "GenXzStreamDecT.cfg", workers=1, timeout=1500, env=env)),
         ("GenLz", dict(module="GenLz", cfg="GenLz.cfg" if quick else "GenLzT.cfg", workers=1, timeout=900)),
         ("GenLzRaw", dict(module="GenLz", cfg="GenLzRaw.cfg", workers=1, timeout=900)),
+        ("MCVli", dict(module="Vli", cfg="MCVli.cfg", workers=2, timeout=600)),
+        ("GenVli", dict(module="Vli", cfg="GenVli.cfg", workers=1, timeout=600)),
         ("EvalLzDict", dict(module="EvalLzDict", workers=1, timeout=300)),
         ("GenLzma2", dict(module="MCLzma2", cfg="GenLzma2.cfg" if quick else "GenLzma2T.cfg", workers=1, timeout=900)),
     ]
-    broken = [("MCLz", "MCLzVar_dist_off_by_one.cfg", {}), ("MCLz", "MCLzVar_no_wrap_correction.cfg", {}), ("MCLz", "MCLzVar_reset_keeps_wrapped.cfg", {}),
+    broken = [("MCLz", "MCLzVar_dist_off_by_one.cfg", {}), ("MCLz", "MCLzVar_no_wrap_correction.cfg", {}), ("MCLz", "MCLzVar_reset_keeps_wrapped.cfg", {}), ("Vli", "MCVliVar_call_local_pos.cfg", {}),
               ("MCLzma2", "MCLzma2Var_no_need_props.cfg", {}), ("MCLzma2", "MCLzma2Var_no_need_dict.cfg", {}),
               ("MCXzStreamDec", "MCXzStreamDecVar_no_flags_compare.cfg", env), ("MCXzStreamDec", "MCXzStreamDecVar_index_sums_only.cfg", env),
               ("MCXzStreamDec", "MCXzStreamDecVar_size_valid_misuse.cfg", env)]
@@ -227,6 +229,14 @@ def run(ctx):
         return dict(known=slices(pk, k, shards)[0], raw=slices(pr, k, shards)[0], rows=slices(rows, k, shards)[0])
     n = run_phase(ctx, "lz", lz_args, None, so, shards=NS)
     ctx.log("Lz: %d executions on %d symbol sequences + %d table rows (LZMA2 chunks, raw LZMA1, .lzma; one-shot and byte-wise)" % (n, len(pk) + len(pr), len(rows)))
+    vb = {}
+    for p in plans_from_tlc(res["GenVli"].out):
+        vb.setdefault(json.dumps(p['buf']), p)
+    vbufs = list(vb.values())
+    if len(vbufs) < 1000:
+        raise MachineryError("VLI plan generation produced only %d buffers" % len(vbufs))
+    nvli = run_phase(ctx, "vli", lambda k, sh: dict(bufs=slices(vbufs, k, sh)[0]), None, so, shards=2)
+    ctx.log("Vli: %d executions of lzma_vli_decode on %d byte strings (single-call; multi-call byte-wise and cut in two everywhere)" % (nvli, len(vbufs)))
     l2 = plans_from_tlc(res["GenLzma2"].out)
     if len(l2) < 400:
         raise MachineryError("LZMA2 plan generation produced only %d plans" % len(l2))
@@ -277,8 +287,8 @@ def run(ctx):
         model[name] = dict(rets=sorted(set(p['ret'] for p in ps)), out=(good[0]['out'] if good else []), pos=(good[0]['pos'] if good else 0), size=ps[0]['size'])
     nv = run_phase(ctx, "testfiles", dict(files=files, model=model), None, so, shards=1)
     ctx.log("tests/files: %d executions on %d .xz files (verdict and decoded bytes vs the independent judge; %d files lifted and judged by the decoder model)" % (nv, len(files), len(model)))
-    ctx.extra["executions"] = n + n2 + n3 + nv
-    ctx.evaluations = n + n2 + n3 + nv
+    ctx.extra["executions"] = n + n2 + n3 + nv + nvli
+    ctx.evaluations = n + n2 + n3 + nv + nvli
     ctx.sample(dict(kind="lz_plan", plan=pk[len(pk) // 2]))
     ctx.sample(dict(kind="lzma2_plan", plan=items[len(items) // 3]))
     ctx.assumptions += [
